@@ -27,6 +27,8 @@ INTS = [('signed char', 1, True), ('short', 2, True), ('int', 4, True), ('long',
 TYPES = dict((t, ('int', s, sg)) for t, s, sg in INTS)
 TYPES['double'] = ('float', 8, True)
 TYPES['float'] = ('float', 4, True)
+TYPES['struct S'] = ('aggr', 8, 'CT_STRUCT')          # passed by value: extern "Python" hands them over by reference
+TYPES['union U'] = ('aggr', 8, 'CT_UNION')
 
 REPLAY = r'''
 # Replay for C14 against the real build: an ffi.callback() of the given signature, called through the
@@ -74,6 +76,8 @@ sys.exit(1 if bad else 0)
 def mk_ctype(ex, L, tname):
     F = L.flags
     kind, size, sg = TYPES[tname]
+    if kind == 'aggr':
+        return pystubs.new_ctype(ex, L, size, F[sg], length=4, stuff=pystubs.py(ex).new_opaque('dict', items=[]), name=tname.encode())
     if kind == 'float':
         fl = F['CT_PRIMITIVE_FLOAT']
     else:
@@ -247,6 +251,12 @@ def check_args(chk, ex, py, label, fn, argtypes, argbits, inputs, replay=None):
     for i, t in enumerate(argtypes):
         kind, size, sg = TYPES[t]
         info = py.info(fn.calls[0][i])
+        if kind == 'aggr':
+            obj = fn.calls[0][i]
+            okk = (info['kind'].startswith('new:') or info['kind'] == 'cdata') and z3.And(bv(py.ex.mem.load(obj + 16, 8), 64) == argbits[i][0],
+                                                                   bv(py.ex.mem.load(obj + 24, 8), 64) == argbits[i][1])
+            hutil.discharge(chk, ex, label + ':argument-%d-(%s)-is-a-cdata-of-that-type-at-the-caller\'s-copy' % (i, t), okk, inputs, replay=replay)
+            continue
         if kind == 'int':
             want = z3.SignExt(W - 8 * size, argbits[i]) if sg else z3.ZeroExt(W - 8 * size, argbits[i])
             okk = info['kind'] == 'int' and (info['V'] == want)
@@ -370,6 +380,11 @@ def invoke_worker(args):
             ptrs = ex.mem.alloc(8 * max(n, 1), 'libffi args[]', 'input')
             for i, t in enumerate(argtypes):
                 k, s, g_ = TYPES[t]
+                if k == 'aggr':
+                    cell = ex.mem.alloc(s, 'by-value aggregate %d' % i, 'input')
+                    ex.mem.store(ptrs.base + 8 * i, cell.base, 8)
+                    argbits.append((acts[i], cell.base))
+                    continue
                 cell = ex.mem.alloc(s, 'libffi arg cell %d' % i, 'input')
                 b = z3.BitVec('arg%d' % i, 8 * s)
                 ex.mem.store(cell.base, b, s)
@@ -384,6 +399,11 @@ def invoke_worker(args):
             buf = ex.mem.alloc(max(8 * n, 8), 'extern "Python" a[]', 'input')
             for i, t in enumerate(argtypes):
                 k, s, g_ = TYPES[t]
+                if k == 'aggr':
+                    cell = ex.mem.alloc(s, 'by-value aggregate %d (the wrapper passes its address)' % i, 'input')
+                    ex.mem.store(buf.base + 8 * i, cell.base, 8)
+                    argbits.append((acts[i], cell.base))
+                    continue
                 ex.mem.store(buf.base + 8 * i, z3.BitVec('slot_garbage%d' % i, 64), 8)
                 b = z3.BitVec('arg%d' % i, 8 * s)
                 ex.mem.store(buf.base + 8 * i, b, s)
@@ -536,6 +556,8 @@ def run(chk):
                     cases.append(P + ('invoke', mode, rt, (at,), he, ho))
         cases.append(P + ('invoke', mode, 'int', (), True, True))
         cases.append(P + ('invoke', mode, 'short', ('unsigned char', 'long'), True, False))
+        cases.append(P + ('invoke', mode, 'int', ('struct S', 'union U'), False, False))
+        cases.append(P + ('invoke', mode, 'long', ('union U', 'int'), True, False))
         if not quick:
             for rt in all_types:
                 for at in all_types:
@@ -546,7 +568,7 @@ def run(chk):
     chk.bounds = {'signatures': 'result and argument types over %s; 0..2 arguments (%s combinations)' % (all_types, 'selected' if quick else 'all pairs'),
                   'values': 'every argument bit pattern, every Python int / double returned, every error= value in range',
                   'behaviours': 'function: value | unconvertible object | raises; onerror: absent | None | value | unconvertible | raises'}
-    chk.outside = ['libffi\'s closure trampoline (assembly) before invoke_callback; struct/union/long double/pointer/char/void signatures',
+    chk.outside = ['libffi\'s closure trampoline (assembly) before invoke_callback; long double/pointer/char/void signatures, struct/union results',
                    'the text written by the unraisable hook (formatting stubs)', 'sub-interpreter cache refresh of extern "Python"',
                    'b_callback closure allocation (C29)']
     chk.assume('the Python function and onerror are nondeterministic stubs; PyErr_Fetch/Restore move the pending exception; '
